@@ -144,7 +144,30 @@ DESC6 = {
     "C19:A": ("Dimension.scale rolls back by name and symbol when anything fails", "scale() with a taken name or symbol unbinds the existing owner"),
     "C20:A": ("per-base bucket of Prefix created outside the lock", "two threads constructing the first prefix of a new base"),
 }
+DESC7 = {
+    "C01:A": ("Unit.__from_json__ expands listed factors to base units with dict.update", "a document listing derived factors that share a base unit (J and s): dimension computed from the listed factors, factors overwritten"),
+    "C02:A": ("Prefix * and / change base through math.log(other.quantify(), base)", "cross-base products with an operand scale below the float range (10**-330): log(0.0)"),
+    "C03:A": ("Unit.__mul__ treats everything that is not a unit/prefix/logarithm/text as a magnitude", "Unit * Quantity builds a Quantity whose magnitude is a Quantity"),
+    "C04:A": ("Pottle.equals(1.892075892 * Liter) (two digits transposed)", "pottle conversions, against sizes derived from 231 cubic inches per gallon"),
+    "C05:A": ("Prefix.quantify rounds float-exponent values within 1e-9 of an integer", "cross-base prefixes: Kilo*Byte quantifies as int 8000 while routes through the float differ"),
+    "C06:A": ("Quantity.unprefixed shifts a Decimal magnitude with scaleb(prefix.exponent) whatever the base", "Decimal magnitudes under IEC prefixes (scaleb is a power of ten)"),
+    "C07:A": ("_pair_identical_factors removes units present on both sides before matching", "source with two metres, target with one metre plus an unconnected unit: KeyError/other instead of ConversionNotFound"),
+    "C08:A": ("Prefix.root keeps the exponent through _div (float exponent)", "a root taken by an earlier conversion leaves a float-exponent prefix interned; later equal conversions differ"),
+    "C09:A": ("Hectare.equals(0.01 * Kilo * Meter**2) added", "hectare cycle: 0.01 (km)**2 is 10**4 m**2 only if the prefix is squared; the declaration disagrees with hm**2"),
+    "C10:A": ("_compose folds the hops of a memoised plan by multiplying scales and ADDING offsets", "two-hop temperature paths (Fahrenheit -> Celsius -> Kelvin)"),
+    "C11:A": ("Prefix * and / always go through the float base-change expression, also for equal bases", "same-base products get float exponents (Kilo*Milli has exponent 0.0)"),
+    "C12:A": ("Cable.equals(100 * Fathom)", "order of cables against fathoms/metres, physical values from the 120-fathom definition"),
+    "C13:A": ("str() of a quantity rounds float magnitudes to 12 places after folding the prefix", "small float magnitudes under 10**-n prefixes: parse(str(q)) != q"),
+    "C14:A": ("conversion fast path for equal factors shifts by 10**(difference of exponents) whatever the base", "Measurement + / - across IEC prefixes"),
+    "C15:A": ("Unit.__json__ writes the prefix as its name", "compound units whose combined prefix has no registered name: KeyError(None) on decode"),
+    "C17:A": ("parser returns Decimal(text) for float literals that overflow to inf", "'1e999 m' parses to a Decimal magnitude; exponents beyond Decimal's range raise InvalidOperation"),
+    "C18:A": ("Logarithm.__mul__ merges cross-base prefixes with equal exponents as (a*b)**(2n)", "Deci * Semitone (10**-1 and 12**-1): prefix 120**-2"),
+    "C19:A": ("Prefix.resolve_symbol maps 'u' and the micro sign to the Greek mu first", "a new prefix declared with symbol 'u' is never found by its own symbol"),
+    "C20:A": ("Unit._product answers arithmetic from a lock-free read of Unit._known", "another thread between registration and __init__: a unit without fields is returned"),
+}
 ROUND, SRC, SUF = 3, "/tmp/seed3files", ""
+if os.environ.get("SEEDROUND") == "7":
+    DESC, ROUND, SRC, SUF = DESC7, 7, "/tmp/seed7files", "7"
 if os.environ.get("SEEDROUND") == "6":
     DESC, ROUND, SRC, SUF = DESC6, 6, "/tmp/seed6files", "6"
 if os.environ.get("SEEDROUND") == "5":
